@@ -479,7 +479,7 @@ class Prop:
         env.actions["adv"] = act
         if cfg.get("storm"):
             # young-generation collections at every opportunity; the oldest generation is
-            # collected by hand at the end of every op, never on the interpreter's own
+            # collected by hand at the end of every fourth op, never on the interpreter's own
             # initiative (that depends on how large the process heap has grown, i.e. on
             # the runs this worker executed before)
             gc.collect()
@@ -753,7 +753,7 @@ class Prop:
                 safe(o.all_trait_names)
                 safe(o._instance_traits)
             del v
-            if cfg.get("storm"):
+            if cfg.get("storm") and i % 4 == 3:
                 gc.collect()
             env.end_op()
             env.token(k, len(op.get("env", ())))
